@@ -4,7 +4,7 @@ A small fixed-shape hierarchy (type alias T, class A with leaf x, A2 extends A,
 B with component a: A2, C with component b: B; a parameter k with a different
 value in every scope) in which one or two attributes of the leaf are modified
 at 2-5 competing levels with expressions that mention k.  Every case is printed
-in the four spellings; each spelling must be rejected or flatten to the model
+in the four spellings and a mixed one (a different spelling per modification list); each spelling must be rejected or flatten to the model
 predicted by the reference flattener (outermost wins; expressions renamed by
 the scope in which they are written)."""
 from hypothesis import strategies as st
@@ -21,16 +21,16 @@ RULE = (
     "hierarchy T/A/A2/B/C with the leaf attribute(s) (value, start, min, max, nominal, fixed, unit) modified at a "
     "drawn subset of the levels {type alias, declaration, extends clause, second extends clause, enclosing component, "
     "enclosing-enclosing component}, expressions literal / k / k+c / c*k where k exists with a "
-    "different value in every scope; each case printed in 4 spellings (nested, a.x(start=..), "
+    "different value in every scope; each case printed in 4 spellings plus one mixing them per modification list (nested, a.x(start=..), "
     "a(x.start=..), a.x.start=..).  non-trivial = >= 3 levels compete for one attribute, or an "
     "expression mentions k at a level whose scope differs from the leaf's; distinct = distinct abstract case."
 )
 ASSUMPTIONS = [
     "a spelling counts as rejected when parse or flatten raises or parse returns no tree",
-    "at least one of the four spellings must be accepted (otherwise the first sentences of the statement could not hold for that variable at all)",
+    "at least one of the spellings must be accepted (otherwise the first sentences of the statement could not hold for that variable at all)",
     "attribute values are compared by evaluation at the declared parameter values (5 / 3 / 2 per scope), not by shape",
 ]
-SPELLINGS = ["nested", "dotted_elem", "dotted_attr", "dotted_all"]
+SPELLINGS = ["nested", "dotted_elem", "dotted_attr", "dotted_all", "mixed"]  # mixed: a different one per modification list
 ATTRS = ["start", "min", "max", "nominal", "value", "fixed", "unit"]
 KVAL = {"KC": 5, "KB": 3, "KA": 2}
 
@@ -82,7 +82,9 @@ def case_strategy(draw, ctx=None):
             else:
                 e = draw(mod_expr(allow_k=lv != "type"))
             mods[lv].append([a, e])
-    return {"attrs": attrs, "leaf_param": leaf_param, "alias": use_alias, "top": top, "mods": mods, "layout": layout, "chain": chain}
+    mix = draw(st.lists(st.integers(0, 3), min_size=6, max_size=6))
+    return {"attrs": attrs, "leaf_param": leaf_param, "alias": use_alias, "top": top, "mods": mods, "layout": layout, "chain": chain,
+            "mix": mix}
 
 
 def build_lib(case):
@@ -196,7 +198,7 @@ def _check_case(ctx, case):
     results = {}
     texts = {}
     for sp in SPELLINGS:
-        text = L.print_lib(lib, sp)
+        text = L.print_lib(lib, L.Mix(case.get("mix", [0, 3, 1, 2, 3, 0])) if sp == "mixed" else sp)
         texts[sp] = text
         try:
             t = parser.parse(text, bypass_cache=True)
@@ -258,9 +260,9 @@ def replay(ctx, case):
 
 MANIFEST = dict(
     text="Competing modifications of one leaf attribute at up to five levels, with scope-sensitive "
-    "expressions, printed in all four spellings; every accepted spelling must flatten to the model "
+    "expressions, printed in all four spellings and in a text that mixes them; every accepted spelling must flatten to the model "
     "computed by the reference flattener (precedence + scope), so spellings can never disagree "
     "silently.  Sampling over level subsets, attributes, expressions.",
     note="Trusts the reference flattener's modification rules (MLS 7.2: outermost wins, extends-clause over base, expressions in the scope where written) and numeric evaluation of attribute expressions at the declared parameter values.",
-    technique="property-based testing: reference-model oracle plus metamorphic relation across four equivalent spellings",
+    technique="property-based testing: reference-model oracle plus metamorphic relation across equivalent spellings (four pure, one mixed)",
 )
